@@ -375,9 +375,14 @@ theorem C29_pg_index (xs : List α) (i : Int) : pgIndex xs i = listGet xs i := b
       have c2 : (i + (xs.length : Int) < 0 ∨ i + (xs.length : Int) ≥ (xs.length : Int)) := by omega
       simp only [listGet, h0, c1, c2, if_true]
 
-/-- not proved here (kept as a statement): with PostgreSQL's slice semantics (`arr[l:u]` 1-based, inclusive, intersected with the
-    bounds) the emitted slice is Python's for all bounds.  Checked by the engine on the grid through the driver only. -/
-def C29_pg_slice_full : Prop := ∀ (xs : List Int) (a b : Option Int), pgSlice xs a b = pySlice xs a b
+/-- **PostgreSQL `x.arr[a:b]`** (`arr[l:u]` 1-based, inclusive, intersected with the bounds; `l`, `u` computed by `_index(from_one=True)`)
+    is Python's `arr[a:b]` for every list and ALL bounds (negative, beyond either end, omitted) -/
+theorem C29_pg_slice (xs : List α) (a b : Option Int) : pgSlice xs a b = pySlice xs a b := by
+  have hn : (0 : Int) ≤ xs.length := by omega
+  rw [pgSlice_win, pySlice_win]
+  exact win_congr xs _ _ _ _ (pgLo_nonneg _ a) (loOf_nonneg _ hn a) (pg_lo_eq _ hn a) (pg_hi_eq _ hn a b)
+
+example : pgSlice [1, 2, 3] (some (-5)) (some 2) = [1, 2] ∧ sqliteArraySlice false [1, 2, 3] (some (-5)) (some 2) = [2] := by decide
 
 /-! ### several JSON paths in one statement: composite parameters are shared by key -/
 
